@@ -11,6 +11,8 @@ Clauses
   zero_scale : constant images / constant channels / constant masked region: ValueError when
                refusing is requested, otherwise warning + finite result, zero-scale part only centred.
   compose    : compositions of two features (at most one of them daisy).
+  (convention, daisy, convention_3d also: results of repeated calls are independent - earlier results unchanged by
+   later calls on other same-shaped inputs, no memory shared between results, no write-through.)
   convention_3d : the convention clause on 3-D images for the features documented for (C, X, ..., Z) arrays.
   winit      : the window-iterating decorator: mask sampled at the window centres, landmarks moved to the window grid.
   resample   : a feature that stretches one axis and shrinks the other: mask resized, landmarks rescaled per axis.
@@ -555,6 +557,56 @@ def call_both(ctx, feat, c, im, tag):
     return out, out_arr, arr0
 
 
+def check_results_independent(ctx, feat, c, im, out, out_arr, arr0, tag):
+    """Every call of a feature hands out a result of its own. After the feature has run on the image and on the array
+    form, it is run again on other inputs of the same shape (array, then image: same values, first spatial axis
+    reversed); then (1) the earlier results are bit-identical to the copies saved before the later calls, (2) no two
+    results share memory, nor does a later result with its input (every exported feature, no_op included, is documented
+    as returning new data: "a copy of the pixels passed in"), (3) overwriting one result leaves the others as they were."""
+    if not isinstance(out_arr, np.ndarray) or not hasattr(out, "pixels"):
+        return
+    f = feature_callable(feat, c["ch"])
+    refusable = feat["name"] in NORMALISERS and feat["kw"].get("error_on_divide_by_zero", True)
+    rev = (slice(None), slice(None, None, -1))
+    arr_b = np.ascontiguousarray(arr0[rev]).copy()
+    im_b = im.copy()
+    im_b.pixels[...] = im.pixels[rev]
+    arr_b0 = arr_b.copy()
+    saved = [("f(image).pixels", out.pixels, out.pixels.copy()), ("f(array)", out_arr, out_arr.copy())]
+    try:
+        r3 = f(arr_b)
+        if isinstance(r3, np.ndarray):
+            saved.append(("f(second array)", r3, r3.copy()))
+        r4 = f(im_b)
+    except ValueError:
+        if not refusable:
+            raise
+        ctx.event("independence: second input refused (zero scale)")
+        return
+    ctx.event("independence: checked")
+    if not isinstance(r3, np.ndarray) or not hasattr(r4, "pixels"):
+        return  # reported by the convention checks of the first pair
+    for name, a, a0 in saved:
+        ctx.expect(a.dtype == a0.dtype and same_values(a, a0), "feature.earlier_result_changed." + tag,
+                   lambda name=name, a=a, a0=a0: "%s is no longer what it was before the feature ran on other inputs of the same shape\n%s"
+                   % (name, describe(a, a0)))
+    results = [(n, a) for n, a, _ in saved] + [("f(second image).pixels", r4.pixels)]
+    shared = [(results[i][0], results[j][0]) for i in range(len(results)) for j in range(i + 1, len(results))
+              if np.shares_memory(results[i][1], results[j][1])]
+    ctx.expect(not shared, "feature.results_share_memory." + tag, lambda: repr(shared))
+    ctx.expect(not np.shares_memory(r3, arr_b) and not np.shares_memory(r4.pixels, im_b.pixels),
+               "feature.result_shares_memory_with_input." + tag, "second pair of calls")
+    ctx.expect(np.array_equal(arr_b, arr_b0, equal_nan=True), "input_array_modified." + tag, "second array")
+    if isinstance(out, MaskedImage) and isinstance(r4, MaskedImage):
+        ctx.expect(not np.shares_memory(out.mask.pixels, r4.mask.pixels), "feature.results_share_memory." + tag, "masks")
+    # (3) overwrite one result (the second array's), look at the others
+    others = [(n, a, a.copy()) for n, a in results if a is not r3]
+    r3[...] = 7
+    for name, a, a0 in others:
+        ctx.expect(same_values(a, a0), "feature.result_write_through." + tag,
+                   lambda name=name, a=a, a0=a0: "overwriting f(second array) changed %s\n%s" % (name, describe(a, a0)))
+
+
 def check_pixels_agree(ctx, feat, c, im, out, out_arr, tag):
     if is_masked_normalize(feat, c) and isinstance(out, MaskedImage):
         # not the same memory layout on both sides (boolean indexing), so summation order may differ: stated tolerance
@@ -624,11 +676,13 @@ def c_convention(case, ctx):
     if r is None:
         check_unchanged_and_unshared(ctx, im, d0, None, tag)
         return
-    out, out_arr, _ = r
+    out, out_arr, arr0 = r
     check_unchanged_and_unshared(ctx, im, d0, out, tag)
     if not check_kind(ctx, im, out, tag):
         return
     check_pixels_agree(ctx, feat, c, im, out, out_arr, tag)
+    check_results_independent(ctx, feat, c, im, out, out_arr, arr0, tag)
+    check_unchanged_and_unshared(ctx, im, d0, out, tag)
     if not ctx.expect(out.shape == im.shape, "size_preserving_feature_changed_size." + tag,
                       lambda: "%r -> %r" % (im.shape, out.shape)):
         return
@@ -705,11 +759,13 @@ def c_daisy(case, ctx):
     im = build_image(c)
     d0 = digest.digest(im)
     r = call_both(ctx, feat, c, im, tag)
-    out, out_arr, _ = r
+    out, out_arr, arr0 = r
     check_unchanged_and_unshared(ctx, im, d0, out, tag)
     if not check_kind(ctx, im, out, tag):
         return
     check_pixels_agree(ctx, feat, c, im, out, out_arr, tag)
+    check_results_independent(ctx, feat, c, im, out, out_arr, arr0, tag)
+    check_unchanged_and_unshared(ctx, im, d0, out, tag)
     want_shape = daisy_out_shape(im.shape, kw)
     want_ch = (eff_rings * kw["histograms"] + 1) * kw["orientations"]
     ctx.event("out_min_side=%s" % ("1" if min(want_shape) == 1 else ">=2"))
